@@ -386,6 +386,9 @@ Section Sym.
                   todo = [] -> at_name h u root parent c (out_pi (on_comp (done ++ [c]) done c) saved)).
     { intros Hpr _. rewrite (Hsv Hpr). cbn [out_pi]. exists done.
       split; [|auto]. apply Forall_app. split; [exact Hgd|]. constructor; [exact Hc|constructor]. }
+    assert (Hlast : precise_of slm = true ->
+                    todo = [] -> pi_is_last (out_pi (on_comp (done ++ [c]) done c) saved) = true).
+    { intros Hpr _. rewrite (Hsv Hpr). cbn [out_pi]. destruct (on_comp_views done [] c) as (_ & _ & _ & _ & _ & Vl). exact Vl. }
     destruct (alookup str_eqb c (children h parent)) as [n|] eqn:Hl.
     2:{ intros _ _ _. destruct todo as [|c2 todo]; cbn [is_nil].
         - cbn. repeat split; auto.
@@ -450,8 +453,9 @@ Section Sym.
           2:{ apply resumes_longer in Hres. cbn [length] in Hres. lia. }
           destruct fi as [|fi]; [cbn [search_loop sr_err]; congruence|]. intros _.
           rewrite (search_loop_end h v Hos fi slm root root pi2 (S slcount) saved' [] Hok' Hb2).
-          cbn [walk_rel sr_err sr_child sr_parent]. split; [reflexivity|]. split; [reflexivity|].
-          split; [apply node_is_dir_valid; exact Hrd|]. split; [eauto|]. intros [=].
+          cbn [walk_rel sr_err sr_child sr_parent sr_pi]. split; [reflexivity|]. split; [reflexivity|].
+          split; [apply node_is_dir_valid; exact Hrd|]. split; [eauto|].
+          split; [intros Hpr; rewrite (Hsv' Hpr); reflexivity|]. intros [=].
         * assert (Hmd : is_nil todo && ktrailing (abs_path lc) = false).
           { destruct todo as [|c2 todo]; [|reflexivity]. cbn [is_nil andb]. rewrite app_nil_r in Ecs.
             apply ktrailing_abs_path; [apply Forall_comp_ok_of; exact Hlcg|rewrite <- Ecs; discriminate]. }
@@ -482,11 +486,11 @@ Section Sym.
           rewrite <- Hm2.
           rewrite <- Ecs in Hp1.
           destruct (search_rewalk_full h v Hos cs' root p [] cs' fi slm root pi2 (S slcount) saved' eq_refl Hok' Hb2 Hp1 Hrp)
-            as (R1 & R2 & R3).
+            as (R1 & R2 & R3 & R4).
           cbn. change (S (length cs') + fi) with (S (length cs' + fi)).
           split; [exact R1|]. split; [exact R2|].
           split; [apply node_is_dir_valid; exact (proj1 (dwalk_end_dir _ _ _ _ _ Hp1 Hrd Hrp))|].
-          split; [exact R3|]. intros [=].
+          split; [exact R3|]. split; [intros Hpr; apply R4; [exact (Hsv' Hpr)|reflexivity]|]. intros [=].
         * intros Hk1 Hk2 Hnf.
           assert (Hw' : c0 :: w <> []) by discriminate.
           destruct (kwalk_dotdots h u root Hwf Hrd Hrp k done parent (c0 :: w) fk false follow (S slcount) false Hw' Hw)
@@ -514,10 +518,10 @@ Section Sym.
           pose proof (search_loop_mono (S (length cs')) fi h v slm root root pi2 (S slcount) saved' _ eq_refl Hnf) as Hm2.
           rewrite <- Hm2. rewrite <- Ecs in Hw.
           destruct (search_rewalk_full h v Hos cs' root parent [] cs' fi slm root pi2 (S slcount) saved' eq_refl Hok' Hb2 Hw Hrp)
-            as (R1 & R2 & R3).
+            as (R1 & R2 & R3 & R4).
           cbn. change (S (length cs') + fi) with (S (length cs' + fi)).
           split; [exact R1|]. split; [exact R2|]. split; [apply node_is_dir_valid; exact Hd|].
-          split; [exact R3|]. intros [=].
+          split; [exact R3|]. split; [intros Hpr; apply R4; [exact (Hsv' Hpr)|reflexivity]|]. intros [=].
         * intros Hk1 Hk2 Hnf.
           pose proof (kwalk_mono_S fk h u root false follow parent (c2 :: todo) (S slcount) false _ eq_refl Hk1) as Hm.
           rewrite <- Hm in Hk1, Hk2 |- *.
@@ -548,7 +552,7 @@ Proof.
     intros _ _ _.
     rewrite (search_loop_end h v Hos fi slm (v_root v) (v_root v) _ 0 None [] (Forall_nil _) (pi_new_before [])).
     rewrite kwalk_S. cbn [walk_rel sr_err sr_child sr_parent]. split; [reflexivity|]. split; [reflexivity|].
-    split; [apply node_is_dir_valid; exact Hrd|]. split; [eauto|]. intros [=].
+    split; [apply node_is_dir_valid; exact Hrd|]. split; [eauto|]. split; [reflexivity|]. intros [=].
   - destruct Hmd as [->|Hmd]; [|discriminate]. destruct (kperm h (v_root v) 1 (v_user v)) eqn:Hrp.
     + intros Hk1 Hk2 Hnf.
       apply (sym_bridge_at h v Hos Hwf Hlc Hrd Hrp slm fk fi [] (c :: cs) (v_root v) _ 0 None _); auto.
